@@ -3,6 +3,7 @@ import AslProofs.WebSocket
 import AslProofs.WebSocketClient
 import AslProofs.WebSocketCut
 import AslProofs.WebSocketPrefix
+import AslProofs.WebSocketServerHs
 import AslProofs.Sha1
 import AslProps.C15
 /-!
@@ -727,5 +728,94 @@ theorem handshake_end_to_end_sample :
     let req := clientRequest [47, 99, 104, 97, 116] [104] [56, 48] key
     key.length = 24 ∧ serverHandshake req = serverResponse key true ∧ clientAccepts (serverHandshake req) = true := by
   decide +kernel
+
+/-! ## the server handshake on EVERY well-formed upgrade request (second extension round)
+
+`handshake_without_space_sample` above are two instances; this is the general statement recorded there.  A request is
+described by its parts (`AslProofs.WebSocketServerHs`): request line `method SP target SP version` (no blank inside method and
+target, no LF), any list of header lines `name ":" OWS value OWS CR LF` (`ReqLine.WF`: RFC 7230 §3.2 — name without colon or
+blank, value non-empty without LF and without a blank at either end, OWS = spaces and tabs, none included), the empty line, then
+any bytes (the first frames).  `lastField ls k` is the value of the LAST line whose name capitalises to `k` (so names match in
+any case, and a repeated header is decided by its last occurrence — `headers[name] = value`). -/
+
+open AslProofs.WebSocketServerHs in
+/-- **every well-formed upgrade request is answered with the RFC 6455 accept key of its `Sec-WebSocket-Key`**: if the last
+    `Upgrade` line says `websocket`, the last `Connection` line lists `Upgrade` (split at `", "`) and the last key line carries
+    `key`, the server writes exactly the 101 response for `key` — whose accept value is base64(SHA-1(key ‖ GUID)) as RFC 6455
+    §4.2.2 defines it (RFC 4648 / FIPS 180-4 specifications) — with the protocol line iff a `Sec-WebSocket-Protocol` line is
+    present, whatever other header lines there are, in any order, name case and optional whitespace, and whatever follows -/
+theorem server_handshake_general (method target version : List UInt8) (ls : List ReqLine) (tail key conn : List UInt8)
+    (hm : ∀ x ∈ method, x ≠ 32 ∧ x ≠ 10) (ht : ∀ x ∈ target, x ≠ 32 ∧ x ≠ 10) (hv : ∀ x ∈ version, x ≠ 10)
+    (hwf : ∀ l ∈ ls, l.WF)
+    (hup : lastField ls strUpgrade = some strWebsocket)
+    (hconn : lastField ls strConnection = some conn) (hc : (splitCommaSp [] conn).contains strUpgrade = true)
+    (hkey : lastField ls strKey = some key) :
+    serverHandshake (upgradeRequest method target version ls tail) = serverResponse key (lastField ls strProtocol).isSome ∧
+    serverResponse key (lastField ls strProtocol).isSome =
+      responseHead ++ C15.Rfc.base64 (AslModel.Sha1.Fips.sha1 (key ++ Rfc6455.guid)) ++ [13, 10] ++
+        (if (lastField ls strProtocol).isSome then responseProtocol else []) ++ [13, 10] := by
+  constructor
+  · rw [serverHandshake_wellformed method target version ls tail hm ht hv hwf]
+    have hc' : strUpgrade ∈ splitCommaSp [] conn := by simpa using hc
+    simp [hup, hconn, hc', hkey]
+  · unfold serverResponse
+    rw [accept_key_rfc]
+
+open AslProofs.WebSocketServerHs in
+/-- **anything else is refused with 400 and no accept key**: a well-formed request whose last `Upgrade` line is missing or
+    is not exactly `websocket`, or whose last `Connection` line does not list `Upgrade`, gets `response400` (the
+    `400 Bad Request` text regenerated from the source) -/
+theorem server_handshake_refuses_non_upgrade (method target version : List UInt8) (ls : List ReqLine) (tail : List UInt8)
+    (hm : ∀ x ∈ method, x ≠ 32 ∧ x ≠ 10) (ht : ∀ x ∈ target, x ≠ 32 ∧ x ≠ 10) (hv : ∀ x ∈ version, x ≠ 10)
+    (hwf : ∀ l ∈ ls, l.WF)
+    (hno : lastField ls strUpgrade ≠ some strWebsocket ∨
+      (splitCommaSp [] ((lastField ls strConnection).getD [])).contains strUpgrade = false) :
+    serverHandshake (upgradeRequest method target version ls tail) = response400 := by
+  rw [serverHandshake_wellformed method target version ls tail hm ht hv hwf]
+  rcases hno with h | h
+  · cases hl : lastField ls strUpgrade with
+    | none => simp
+    | some v =>
+      have : v ≠ strWebsocket := fun e => h (by rw [hl, e])
+      simp [this]
+  · have h' : strUpgrade ∉ splitCommaSp [] ((lastField ls strConnection).getD []) := by
+      intro hm'
+      have : (splitCommaSp [] ((lastField ls strConnection).getD [])).contains strUpgrade = true := by simpa using hm'
+      rw [h] at this; exact Bool.noConfusion this
+    simp [h']
+
+open AslProofs.WebSocketServerHs in
+/-- **a repeated header is decided by its last line, names compare in any case**: the table the header loop builds answers a
+    lookup with the value of the last line whose capitalised name is the key -/
+theorem server_header_last_line_wins (ls : List ReqLine) (k : List UInt8) :
+    getHeader (table ls []) k = (lastField ls k).getD [] ∧ hasHeader (table ls []) k = (lastField ls k).isSome :=
+  ⟨getHeader_table ls k, hasHeader_table ls k⟩
+
+section
+open AslProofs.WebSocketServerHs
+/-- non-vacuity: `upgrade:websocket`, `CONNECTION: keep-alive, Upgrade`, two key lines (the last one counts) -/
+private def sampleLines : List ReqLine :=
+  [⟨[117, 112, 103, 114, 97, 100, 101], [], strWebsocket, []⟩,
+   ⟨strKey, [32], [65], []⟩,
+   ⟨[67, 79, 78, 78, 69, 67, 84, 73, 79, 78], [32, 9], [107, 101, 101, 112, 45, 97, 108, 105, 118, 101, 44, 32, 85, 112, 103, 114, 97, 100, 101], [9]⟩,
+   ⟨[115, 101, 99, 45, 119, 101, 98, 115, 111, 99, 107, 101, 116, 45, 107, 101, 121], [], [66, 67], [32, 32]⟩]
+example : ∀ l ∈ sampleLines, l.WF := by
+  intro l hl
+  simp only [sampleLines, List.mem_cons, List.not_mem_nil, or_false] at hl
+  rcases hl with rfl | rfl | rfl | rfl <;>
+    (refine ⟨by decide, by decide, by decide, by decide, by decide, ?_, ?_⟩ <;> (intro x hx; simp [strWebsocket] at hx; subst hx; decide))
+example : lastField sampleLines strUpgrade = some strWebsocket ∧ lastField sampleLines strKey = some [66, 67] ∧
+    lastField sampleLines strProtocol = none ∧
+    (splitCommaSp [] ((lastField sampleLines strConnection).getD [])).contains strUpgrade = true := by decide
+example : serverHandshake (upgradeRequest [71] [47] [72, 13] sampleLines [0x81, 1, 0x61]) = serverResponse [66, 67] false :=
+  (server_handshake_general [71] [47] [72, 13] sampleLines [0x81, 1, 0x61] [66, 67]
+    [107, 101, 101, 112, 45, 97, 108, 105, 118, 101, 44, 32, 85, 112, 103, 114, 97, 100, 101] (by decide) (by decide) (by decide)
+    (by intro l hl
+        simp only [sampleLines, List.mem_cons, List.not_mem_nil, or_false] at hl
+        rcases hl with rfl | rfl | rfl | rfl <;>
+          (refine ⟨by decide, by decide, by decide, by decide, by decide, ?_, ?_⟩ <;> (intro x hx; simp [strWebsocket] at hx; subst hx; decide)))
+    (by decide) (by decide) (by decide) (by decide)).1
+example : lastField [(⟨strUpgrade, [], [120], []⟩ : ReqLine)] strUpgrade ≠ some strWebsocket := by decide
+end
 
 end C11
